@@ -160,7 +160,8 @@ DecR2L(T, cu, src, dst, ro) ==
         cd == ContainerPath(T, dst)
     IN  IF cu /\ hs.def
         THEN IF ro /\ cd.def THEN Dec("hostlink", hs.p, dst) ELSE Dec("hostcopy", hs.p, dst)
-        ELSE IF cd.def THEN Dec(IF ro THEN "ctrlink" ELSE "ctrcopy", src, cd.p)
+        \* never a link here: a link made inside the container names a container path, which does not exist locally
+        ELSE IF cd.def THEN Dec("ctrcopy", src, cd.p)
         ELSE Dec("stream", src, dst)
 
 \* container path src -> container path of the same container; tgt as for DecL2R, dst the path as given
